@@ -77,8 +77,8 @@ class Ctx:
         if P.get('crash') or P.get('no_cull'):
             kw.setdefault('cull_limit', 0 if P.get('no_cull') else None)
         kw.setdefault('statistics', P.get('statistics', False))
-        self.s = scn_mod.Scn(w, P['N'], policy=P.get('policy', 'least-recently-stored'),
-                             kinds=P.get('kinds', scn_mod.KINDS), **kw)
+        kw.setdefault('kinds', P.get('kinds', scn_mod.KINDS))
+        self.s = scn_mod.Scn(w, P['N'], policy=P.get('policy', 'least-recently-stored'), **kw)
         self.c = self.s.cache
         self.T0 = self.s.T0
         self.cl = []
@@ -914,24 +914,24 @@ def jobs(tier):
         out.append(dict(id=func[3:] + '.busy.noretry', func=func, params=dict(N=NB, busy=1), tags=['C14', 'C08'], functions=FUNCS[func] + ['core.Cache._transact'],
                         weight=2, must_reach=['timeout_raised']))
         out.append(dict(id=func[3:] + '.busy.retry', func=func, params=dict(N=NB, busy=1, retry=True), tags=['C14'], functions=FUNCS[func] + ['core.Cache._transact'],
-                        weight=20, must_reach=['lock_busy']))
+                        weight=20, must_reach=['lock_busy'], all_clauses=True))
     for func in ('ob_clear', 'ob_evict', 'ob_expire'):
         out.append(dict(id=func[3:] + '.busy.noretry', func=func, params=dict(N=NB, busy=1, bulk=True, page=1), tags=['C14', 'C08'], functions=FUNCS[func],
                         weight=2, must_reach=['timeout_raised']))
         out.append(dict(id=func[3:] + '.busy.retry', func=func, params=dict(N=NB, busy=1, retry=True, page=1), tags=['C14'], functions=FUNCS[func],
-                        weight=5, must_reach=['lock_busy']))
+                        weight=5, must_reach=['lock_busy'], all_clauses=True))
     for pol in ('least-recently-stored', 'none'):
         out.append(dict(id='cull.busy.noretry.' + SHORT[pol], func='ob_cull', params=dict(N=NB, busy=1, bulk=True, policy=pol), tags=['C14', 'C08'], functions=FUNCS['ob_cull'],
                         weight=2, must_reach=['timeout_raised']))
         out.append(dict(id='cull.busy.retry.' + SHORT[pol], func='ob_cull', params=dict(N=NB, busy=1, retry=True, policy=pol), tags=['C14', 'C09'], functions=FUNCS['ob_cull'],
-                        weight=5, must_reach=['lock_busy']))
+                        weight=5, must_reach=['lock_busy'], all_clauses=True))
     for pol, stats in (('least-recently-used', False), ('least-recently-stored', True)):
         out.append(dict(id='get.busy.noretry.%s.%s' % (SHORT[pol], stats), func='ob_get', params=dict(N=NB, busy=1, policy=pol, statistics=stats), tags=['C14'],
                         functions=FUNCS['ob_get'], weight=2, must_reach=['timeout_raised']))
         out.append(dict(id='get.busy.retry.%s.%s' % (SHORT[pol], stats), func='ob_get', params=dict(N=NB, busy=1, retry=True, policy=pol, statistics=stats), tags=['C14'],
-                        functions=FUNCS['ob_get'], weight=2, must_reach=['lock_busy']))
+                        functions=FUNCS['ob_get'], weight=2, must_reach=['lock_busy'], all_clauses=True))
     for func, extra in (('ob_get', {}), ('ob_getitem', {'via': 'getitem'}), ('ob_contains', {}), ('ob_len', {}), ('ob_iter', {'how': 'iter'}), ('ob_iter', {'how': 'iterkeys'})):
-        out.append(dict(id=func[3:] + '.lockfree.' + '.'.join(extra.values()), func=func, params=dict(N=NB, busy='always', **extra), tags=['C14'], functions=FUNCS[func], weight=1))
+        out.append(dict(id=func[3:] + '.lockfree.' + '.'.join(extra.values()), func=func, params=dict(N=NB, busy='always', **extra), tags=['C14'], functions=FUNCS[func], weight=1, all_clauses=True))
     for func in ('ob_set', 'ob_set_file', 'ob_add_file', 'ob_incr', 'ob_pop', 'ob_delete', 'ob_touch', 'ob_clear', 'ob_expire'):
         out.append(dict(id=func[3:] + '.fault', func=func, params=dict(N=NB, fault=True, page=1), tags=['C08'], functions=FUNCS[func] + ['core.Cache._transact'],
                         weight=30, must_reach=['fault_escaped']))
